@@ -5,6 +5,7 @@
   answer  : OK | MODEL-DIFF <detail> | SPEC-FAIL <detail>      (both may be reported, separated by " ; ")
 -/
 import Fir.Model.Alpha
+import Fir.Model.SimdAlpha
 import Fir.Spec.Alpha
 import Fir.Generated.Lists
 import Fir.Generated.Clip
@@ -66,13 +67,16 @@ def handleAlpha (fs : List (String × String)) : String :=
       let model := if isMul then mulPixels p src else divPixels p src
       let cm := canonComps p.kind model
       let cg := canonComps p.kind got
-      -- 16-bit SIMD division is allowed to differ from the portable one by one unit (C02)
-      let tol : Int := if (!isMul) ∧ p.kind == .u16 ∧ ext != "none" then 1 else 0
+      -- 16-bit SIMD division: main-loop pixels go through the f32 lane (exact soft-float model
+      -- `Simd.simdDiv16`), row tails through the portable code - each component must be one of the two
+      let simd16 : Bool := (!isMul) ∧ p.kind == .u16 ∧ ext != "none"
       let modelMsg : Option String := Id.run do
         if cm.size ≠ cg.size then return some "size"
         for i in [0:cm.size] do
-          let d := cm[i]! - cg[i]!
-          if d > tol ∨ d < -tol then return some s!"comp {i}: src={src[i]!} model={cm[i]!} got={cg[i]!}"
+          if cm[i]! ≠ cg[i]! then
+            let j := i % p.n
+            let lane : Int := if simd16 ∧ j ≠ p.n - 1 then (Simd.simdDiv16 src[i]!.toNat src[i - j + (p.n - 1)]!.toNat : Nat) else cm[i]!
+            if lane ≠ cg[i]! then return some s!"comp {i}: src={src[i]!} model={cm[i]!} lane={lane} got={cg[i]!}"
         return none
       let specMsg := alphaSpecCheck p isMul src got
       match modelMsg, specMsg with
